@@ -180,9 +180,8 @@ fn mk_msg(q: &Name, rd: bool, qid: u16) -> dns::DnsMessage {
 
 /// the loaded table, or the result code for "did not load"
 async fn load(yaml: &str, ups: &Upstreams) -> Result<(erbium::config::SharedConfig, Table), u64> {
-    let y = yaml.to_string();
-    let conf = match tokio::spawn(async move { erbium::config::verif_load_config_from_string(&y).await }).await {
-        Ok(Ok(c)) => c,
+    let conf = match catch(|| erbium::config::verif_load_config_from_string(yaml)) {
+        Some(Ok(c)) => c,
         _ => return Err(6),
     };
     let dump = hk::routes_dump(&conf).await;
